@@ -187,6 +187,12 @@ static int upipe_ts_align_control(struct upipe *upipe,
             struct uref *flow_def = va_arg(args, struct uref *);
             return upipe_ts_align_set_flow_def(upipe, flow_def);
         }
+        case UPIPE_REGISTER_REQUEST:
+        case UPIPE_UNREGISTER_REQUEST:
+            /* requests enter the bin through its first inner pipe only:
+             * an unanswered request (UBASE_ERR_UNHANDLED) must not be
+             * registered a second time on the last inner pipe */
+            return upipe_ts_align_control_bin_input(upipe, command, args);
     }
 
     int err = upipe_ts_align_control_bin_input(upipe, command, args);
